@@ -688,6 +688,9 @@ pub struct Exp {
 // ---------------------------------------------------------------------------
 // client line classification helpers
 
+/// The nickname length the server advertises (ISUPPORT NICKLEN).
+pub const NICKLEN: usize = 200;
+
 pub fn valid_nick_syntax(n: &str) -> bool {
     !n.is_empty() && !n.starts_with('#') && !n.starts_with('&') && !n.contains('.') && !n.contains(':') && !n.contains(',')
 }
@@ -1187,6 +1190,12 @@ pub fn step(m: &M, cfg: &SpecCfg, actor: &Actor, line: &str) -> Option<Exp> {
                 return None;
             }
             let new = p[0].as_str();
+            if new.chars().count() > NICKLEN {
+                // beyond the advertised NICKLEN: accepting the whole nickname and refusing it
+                // are both within the statements; what must not happen (two owners, a user
+                // nobody owns) is left to the state oracles
+                return None;
+            }
             if !valid_nick_syntax(new) {
                 // refused with an error, nothing changes
                 e.actor.push(ExpLine {
@@ -1968,6 +1977,9 @@ fn step_unregistered(m: &M, cfg: &SpecCfg, actor: &Actor, verb: &str, p: &[Strin
         }
         "NICK" => {
             if p.is_empty() {
+                return None;
+            }
+            if p[0].chars().count() > NICKLEN {
                 return None;
             }
             if !valid_nick_syntax(&p[0]) {
